@@ -75,7 +75,7 @@ func TestC14(t *testing.T) {
 			"another existing - staked or unstaking - application). Oracle: full dump of "+
 			"all substores before/after: noauth => identical and code != 0; selfpay => only the attacker's account and the fee collector change, by exactly the fee, code != 0. "+
 			"non-trivial = the attacking key is a funded account that legitimately signs for some other object",
-		map[string]float64{"noauth": 0.9, "selfpay": 0.8, "attacker-is-other-operator": 0.5, "multisig-attack": 0.3, "wrong-chain": 0.3, "app-transfer-onto-existing-application": 0.25, "app-transfer-onto-unstaking-application": 0.04},
+		map[string]float64{"noauth": 0.9, "selfpay": 0.8, "attacker-is-other-operator": 0.5, "multisig-attack": 0.3, "wrong-chain": 0.3, "app-transfer-onto-existing-application": 0.2, "app-transfer-onto-unstaking-application": 0.03, "app-owner-edits-another-application": 0.2, "output-key-edits-delegators": 0.1},
 		func(rt *rapid.T, c *harness.Case) {
 			w := chain.GenWorld(rt)
 			c.Opf("%s", w.Describe())
@@ -387,6 +387,14 @@ func genAttack(rt *rapid.T, w *chain.World, n *chain.Node, c *harness.Case) atta
 			}
 			if len(others) > 0 && (appOwnerAttack || rapid.Bool().Draw(rt, "ontoExistingApp")) {
 				tgt := others[rapid.IntRange(0, len(others)-1).Draw(rt, "targetApp")]
+				if rapid.Bool().Draw(rt, "editInsteadOfTransfer") {
+					// ... or the owner of one application signs an ordinary stake / edit-stake message (value, chains) that names
+					// the OTHER application's key: it has no authority over that application
+					c.Label("app-owner-edits-another-application")
+					val := tgt.StakedTokens.Add(sdk.NewInt(int64(rapid.SampledFrom([]int{0, 1, 1_000_000}).Draw(rt, "editBump"))))
+					msg := &appsTypes.MsgStake{PubKey: tgt.PublicKey, Chains: append([]string{}, tgt.Chains...), Value: val}
+					return selfpayTx(msg, fmt.Sprintf("app edit-stake of existing application %s (value %s) signed by the owner of another application", tgt.Address.String()[:8], val))
+				}
 				c.Label("app-transfer-onto-existing-application")
 				if tgt.IsUnstaking() {
 					c.Label("app-transfer-onto-unstaking-application")
